@@ -134,8 +134,15 @@ def solver_clause(model, rep, funcs):
     if solver == "auto" and gs is not None:
         # independent of the known finding above: whatever the policy does for large stacks, small problems (max(n_samples, n_features) <= 500) get the exact solver;
         # every assignment of 'randomized' sits in the else-part of that size test
+        MS = Matcher(gs)
+
+        def both_dims(e):
+            # max(n_samples, n_features) with the two names unpacked from X.shape, whatever they are called
+            ex = norm_src(MS.expr(e)).replace(" ", "")
+            return ex in ("max(X.shape[0],X.shape[1])", "max(X.shape[1],X.shape[0])", "max(X.shape)", "max(*X.shape)")
+
         small = [n for n in ast.walk(gs.node) if isinstance(n, ast.If) and isinstance(n.test, ast.Compare) and len(n.test.ops) == 1 and
-                 isinstance(n.test.ops[0], (ast.LtE, ast.Lt)) and "max(n_samples, n_features)" in norm_src(n.test.left) and
+                 isinstance(n.test.ops[0], (ast.LtE, ast.Lt)) and both_dims(n.test.left) and
                  isinstance(n.test.comparators[0], ast.Constant) and any(isinstance(s, ast.Assign) and isinstance(s.value, ast.Constant) and s.value.value == "full"
                                                                           for s in n.body)]
         rnd_all = [n for n in ast.walk(gs.node) if isinstance(n, ast.Assign) and isinstance(n.value, ast.Constant) and n.value.value == "randomized"]
